@@ -28,9 +28,9 @@ CHECKS = {
          "identity is returned only behind a successful comparison with the signature computed under the provider's secret for the looked-up key, provider errors are returned, no provider => refused (all paths); AmzDate/AmzContentSha256 parsers over all 16-/64-byte inputs; the canonical request and key derivation are validated end to end (real crypto) by 33 reference-signed cases incl. single-component alterations and canonical-equivalent rewrites",
          "crypto uninterpreted/collision-free in solver queries; the canonical-request string builder is not decided symbolically (stated in the evidence)",
          "DESIGN.md 5/C05", True),
- "C06": ("rsx+kani", "rsx+z3 over every path of SignatureContext::check (presigned branch) incl. the inputs of the signed text; rsx on the header-value canonicaliser (symbolic character classes); Kani/CBMC on parse_expires, AmzDate::to_time and the window arithmetic; reference presigner family against the real clock",
-         "parameters read through get_unique, window test, identity = X-Amz-Credential, compare under the provider's secret (all paths); expiry text of 1-4 bytes and edge values; window outcome = date-900s <= now <= date+expires on a reduced replay of the function's statements (one day, expiry < 10^5 s); 35 reference-presigned cases incl. removal/duplication/alteration of every parameter",
-         "the real v4_check_presigned_url exceeded the SAT solver (6.3 M variables): the window is decided on a replay of its statements; crypto uninterpreted",
+ "C06": ("rsx+kani", "rsx+z3 over every path of SignatureContext::check (presigned branch) incl. the inputs of the signed text; rsx on the header-value canonicaliser (symbolic character classes); rsx+z3 (linear integer arithmetic) on the clock block of v4_check_presigned_url taken from the current source (accept <=> inside the window for every now / signing time / expiry; witness replayed against the real clock); Kani/CBMC on parse_expires, AmzDate::to_time and a replay of the window arithmetic on the compiled time calls; reference presigner family against the real clock",
+         "parameters read through get_unique, window test, identity = X-Amz-Credential, compare under the provider's secret (all paths); expiry text of 1-4 bytes and edge values; window outcome = date-900s <= now <= date+expires on the function's own statements (|now|, |date| < 2^62 ns, expiry 0..2^32 s; time::Duration as integers) and on a reduced replay of them over the compiled time crate (one day, expiry < 10^5 s); 35 reference-presigned cases incl. removal/duplication/alteration of every parameter",
+         "the compiled v4_check_presigned_url exceeded the SAT solver (6.3 M variables): the window is decided at source level with an integer model of time::Duration/OffsetDateTime subtraction (validated by the family on the real clock) and on a compiled replay of its statements; crypto uninterpreted",
          "DESIGN.md 5/C06", True),
  "C08": ("kani", "bounded model checking (Kani/CBMC) of the chunk-header grammar, of the two incremental readers under symbolic frame cuts and of the comparison inside check_signature (every presented signature of 63/64/65 arbitrary bytes against a fixed computed one, HMAC stubbed); source-level symbolic execution (rsx + z3) of the generator AwsChunkedStream::new that composes them, with the readers' contracts as assumptions and chunk sizes / frame lengths / declared length symbolic integers; reference-encoded fault family with real HMAC on the real build",
          "parse_chunk_meta over symbolic size/tag/signature/CRLF/junk bytes; check_signature accepts exactly the byte-wise equal signature and hands on the computed one; read_meta_bytes/read_data equal their single-frame result for every cut; every single fault of a 3-chunk upload (altered/resized/swapped/duplicated/deleted/spliced/re-signed chunk, 14 truncation points, wrong declared length) ends the body with an error after delivering only verified bytes",
